@@ -684,7 +684,7 @@ func (e *Engine) sliceOp(f *frame, it *item, x *ssa.Slice) (Value, bool) {
 			return nil, false
 		}
 		if lo.op != OpConst || hi.op != OpConst || mx.op != OpConst {
-			e.unsupported("slice expression with symbolic bounds")
+			return e.sliceSplit(f, it, x, b, lo, hi, mx)
 		}
 		if b.obj == 0 {
 			return SliceV{}, true
@@ -924,4 +924,45 @@ func zeroOrNil(t types.Type) Value {
 		return nil
 	}
 	return zero(t)
+}
+
+// sliceSplit handles s[lo:hi:max] on a slice when a bound is symbolic but can
+// only take a few values: the path is split into one item per feasible
+// combination (the bounds check itself was discharged by the caller).
+func (e *Engine) sliceSplit(f *frame, it *item, x *ssa.Slice, b SliceV, lo, hi, mx *Term) (Value, bool) {
+	vals := func(t *Term) []vg {
+		vs, ok := getVS(t)
+		if !ok || len(vs) > 16 {
+			e.unsupported("slice expression with symbolic bounds (not a small set of values)")
+		}
+		return vs
+	}
+	fi := f.fi
+	r := fi.regOf[x]
+	n := 0
+	for _, l := range vals(lo) {
+		for _, h := range vals(hi) {
+			for _, m := range vals(mx) {
+				c := And(And(l.g, h.g), m.g)
+				if c == FF || !(l.val <= h.val && h.val <= m.val && m.val <= uint64(b.cp)) {
+					continue
+				}
+				if e.solver.Check(append(append([]*Term(nil), it.st.pc...), c)) == ResUnsat {
+					continue
+				}
+				ns := it.st.Fork()
+				ns.Assume(c)
+				ni := &item{st: ns, regs: append([]Value(nil), it.regs...), blk: it.blk, idx: it.idx + 1, iters: it.iters, pcEntry: it.pcEntry, defers: it.defers}
+				if b.obj == 0 {
+					ni.regs[r] = SliceV{}
+				} else {
+					ni.regs[r] = SliceV{b.obj, b.off + int(l.val), int(h.val - l.val), int(m.val - l.val)}
+				}
+				f.work = append(f.work, ni)
+				n++
+			}
+		}
+	}
+	e.forks++
+	return nil, false // the current item ends here; its successors were pushed
 }
